@@ -2,13 +2,23 @@
 import itertools, random
 from .. import common
 
-THEOREMS = [
-    "Lou.C18.findTable_none_iff", "Lou.C18.findTable_mem",
-    "Lou.C18.weight_order", "Lou.C18.key_contribution", "Lou.C18.lang_key_contribution",
-    "Lou.C18.score_eq_sum", "Lou.C18.dominance", "Lou.C18.exact_found",
-    "Lou.C18.index_order_irrelevant", "Lou.C18.index_order_irrelevant_none",
-    "Lou.C18.tableInfo_first", "Lou.C18.parseQuery_sorted", "Lou.C18.analyzeTable_sorted",
-]
+THEOREMS = ["Lou.C18." + n for n in [
+    # lou_findTable vs lou_findTables
+    "findTable_none_iff", "findTable_none_iff_no_positive", "malformed_query_finds_nothing", "findTable_mem",
+    "mem_findTables_iff",
+    # weights (decide on the constants extracted from metadata.c) and per-key contributions
+    "weight_order", "parseQuery_sorted", "analyzeTable_sorted", "score_eq_sum", "key_contribution",
+    "key_contribution_special", "lang_key_contribution", "dominance",
+    # exact match
+    "contrib_of_declaresSame", "exact_score", "exact_found",
+    # index order
+    "index_order_irrelevant", "index_order_irrelevant_none", "dominating_is_returned",
+    # lou_getTableInfo
+    "tableInfo_first", "tableInfo_none", "parser_lines_descending",
+    # the hypotheses are forced: negations of the unrestricted statements on witnesses
+    "tableInfo_first_fails_with_dup", "tableInfo_first_fails_on_bytes", "exact_score_fails_with_two_values",
+    "exact_found_fails_with_many_languages", "dominating_but_not_positive",
+]]
 
 CLAIM = dict(
     text=("Kernel-checked theorems (LouProofs/C18.lean) about an executable Lean transcription of metadata.c "
